@@ -17,8 +17,9 @@ RULE = ("circuits of 1..4 sequential blocks, each with a script per initialisati
         "value delivered by the main task right after start (ValuePoll), and on_output 'put' edges between the "
         "blocks (all topologies incl. self-loops and cycles); block classes: generated probe classes with exactly "
         "the add-ons the scripts need (event-only probes have none), real Input, InitAsync, ValuePoll (logging "
-        "subclasses); EVERY creation-order permutation of each configuration is run; 0..2 FuncBlocks (returning / "
-        "raising) form the first evaluation pass; a Repeat block adds asynchronous clean-up; a task waits in "
+        "subclasses); EVERY creation-order permutation of each configuration is run; 0..2 FuncBlocks (returning a value / "
+        "raising / returning UNDEF in the first evaluation / returning UNDEF only later) form the first evaluation "
+        "pass, their outputs are compared too; a Repeat block adds asynchronous clean-up; a task waits in "
         "wait_init() from the very beginning. quick: all single-block source combinations, all 2-block "
         "configurations over a reduced script alphabet x topologies, random 3..4-block configurations; thorough: "
         "more of each. distinct = hash of (lines, trace); non-trivial = at least one init-time event was "
@@ -340,6 +341,16 @@ def build(scn, order, circuit, storage):
         if cb[0] == 'raise':
             def fn(x):
                 raise RuntimeError('first pass script')
+        elif cb[0] == 'undef':
+            # UNDEF for the initial input value (the first evaluation), a value afterwards
+            def fn(x, calls=[0]):
+                calls[0] += 1
+                return edzed.UNDEF if calls[0] == 1 else 0
+        elif cb[0] == 'undef_later':
+            # a value in the first evaluation pass, UNDEF afterwards
+            def fn(x, v=cb[1], calls=[0]):
+                calls[0] += 1
+                return v if calls[0] == 1 else edzed.UNDEF
         else:
             def fn(x, v=cb[1]):
                 return v
@@ -381,7 +392,7 @@ def config_line(scn, order, ties):
     for i in order:
         b = normalize(scn['blocks'][i])
         toks.append(block_token(b, [pos[d] for d in b['dests']]))
-    cbs = ''.join('x' if cb[0] == 'raise' else 'o' for cb in scn.get('cblocks', [])) or '-'
+    cbs = ','.join({'raise': 'x', 'undef': 'ru'}.get(cb[0]) or 'r' + _v(cb[1]) for cb in scn.get('cblocks', [])) or '-'
     tie = ''.join('1' if ties.get(i, False) else '0' for i in order)
     return f"init reset {len(order)} {cbs} {tie} " + ' '.join(toks), pos
 
@@ -517,7 +528,8 @@ def run_impl(scn):
         else:
             res = f"fail {obs['error']}"
         t = '' if aborted else f" t={obs['t_wait']}"
-        trace.append(f"{obs['wait']} ready={int(obs['ready'])} done={int(obs['init_done'])} {res}{t}")
+        co = (' c=' + (','.join(_v(o) for o in obs['couts']) or '-')) if obs['error'] == 'none' else ''
+        trace.append(f"{obs['wait']} ready={int(obs['ready'])} done={int(obs['init_done'])} {res}{t}{co}")
         obs['order'] = order
         obs['aborted'] = aborted
         runs.append(obs)
@@ -540,7 +552,8 @@ def run_impl(scn):
     tags.add(f"n={len(scn['blocks'])}")
     tags |= {f"kind={normalize(b)['kind']}" for b in scn['blocks']}
     if scn.get('cblocks'):
-        tags.add('first-pass-' + ('raises' if any(c[0] == 'raise' for c in scn['cblocks']) else 'ok'))
+        tags.add('first-pass-' + ('raises' if any(c[0] == 'raise' for c in scn['cblocks']) else
+                                  'undef' if any(c[0] == 'undef' for c in scn['cblocks']) else 'ok'))
     if len(all_orders(scn)) > 1:
         tags.add('all-permutations')
     return {'lines': lines, 'trace': trace, 'tags': sorted(tags), 'nontrivial': nontrivial, 'runs': runs}
@@ -711,9 +724,16 @@ def random_scenario(rng, n, perms=True):
         blocks.append({'kind': 'repeat', 'rdest': rng.choice(targets)})
     scn = {'blocks': blocks}
     if rng.random() < 0.35:
-        scn['cblocks'] = [(['raise', rng.randrange(len(blocks))] if rng.random() < 0.4
-                           else ['ok', rng.randrange(5), rng.randrange(len(blocks))])
-                          for _ in range(rng.randint(1, 2))]
+        def cblock():
+            r, src = rng.random(), rng.randrange(len(blocks))
+            if r < 0.25:
+                return ['raise', src]
+            if r < 0.45:
+                return ['undef', src]
+            if r < 0.6:
+                return ['undef_later', rng.randrange(5), src]
+            return ['ok', rng.randrange(5), src]
+        scn['cblocks'] = [cblock() for _ in range(rng.randint(1, 2))]
     m = len(blocks)
     if perms:
         orders = [list(p) for p in itertools.permutations(range(m))]
@@ -726,7 +746,7 @@ def random_scenario(rng, n, perms=True):
 def fixed_scenarios():
     """a failing first evaluation pass with a waiter in wait_init(), with / without asynchronous clean-up"""
     for cleanup in (None, 'repeat', 'valuepoll'):
-        for cb in (['raise', 0], ['ok', 1, 0]):
+        for cb in (['raise', 0], ['ok', 1, 0], ['undef', 0], ['undef_later', 2, 0]):
             blocks = [{'initdef': 1}]
             if cleanup == 'repeat':
                 blocks.append({'kind': 'repeat', 'rdest': 0})
@@ -906,7 +926,7 @@ def oracle_run(scn, obs):
     # wait_init
     undef = [n for n, o in zip(names, obs['outs']) if o is edzed.UNDEF]
     undef += [f'c{j}' for j, o in enumerate(obs['couts']) if o is edzed.UNDEF]
-    raising_cb = any(cb[0] == 'raise' for cb in scn.get('cblocks', []))
+    raising_cb = any(cb[0] in ('raise', 'undef') for cb in scn.get('cblocks', []))
     if obs['init_done'] and any(o is edzed.UNDEF for o in obs['outs']):
         bad('init_done_only_when_all_initialised',
             f"_init_done is set although {[n for n, o in zip(names, obs['outs']) if o is edzed.UNDEF]} are uninitialised")
@@ -941,7 +961,7 @@ def oracle(scn, res):
                                                             for b in scn['blocks'])}})
         pred = _closure_prediction(scn)
         if pred is not None and not any(v['clause'] == 'wait_init_ok_implies_valid' for v in out):
-            expect = pred and not any(cb[0] == 'raise' for cb in scn.get('cblocks', []))
+            expect = pred and not any(cb[0] in ('raise', 'undef') for cb in scn.get('cblocks', []))
             for order, w in verdicts.items():
                 if (w == 'returned') != expect:
                     out.append({'clause': 'success_iff_sources_reach_all_blocks',
